@@ -19,7 +19,7 @@ RULE = ("the 14 fuzzy-producing commands x hostile parameter sets x hostile fini
 REQUIRED_COUNTERS = ["range_postconditions", "fuzzy_cells_checked", "quiescent_rechecks", "model_runs", "large_rasters_checked", "program_copies_checked"]
 ASSUMPTIONS = ["inputs finite, magnitudes in 1e-9..1e9 or the dyadic lattice; control points closer than 1e-9 relative (slope overflow) "
                "are not generated", "parameter sets for which the command raises one of its specific errors are not judged",
-               "fuzzy inputs to fuzzy operators lie in [-1,1] (what producers guarantee)"]
+               "integer-typed fuzzy layers hold -1 / 0 / 1 only"]
 
 WILD = [0.0, 1e-9, -1e-9, 1 / 3.0, -1 / 3.0, math.pi, -math.pi, 1e6, -1e6, 1e9, -1e9, 2.5, -7.75, 100.0, 0.1, 0.7]
 FUZZY_WILD = [-1.0, 1.0, 0.0, 1 / 3.0, -1 / 3.0, 0.999999999, -0.999999999, 1e-9, 0.1, -0.7, 0.5]
@@ -57,6 +57,18 @@ def cases(ctx):
             c["params"]["Weights"] = ([1, -1] if n_ == 2 else [2] + [-1, -1] + [0] * (n_ - 3))
             import copy as _copy
             c["inputs"] = [_copy.deepcopy(c["inputs"][0]) for _ in range(n_)]
+        if cmd in arr.FUZZY_INPUT and rng.random() < 0.12:
+            # crisp layers stored as small (also unsigned) integers: 0 / 1, and -1 where the type has it
+            dt_ = rng.choice(["uint8", "uint16", "uint32", "uint64", "int8", "int16"])
+            for s_ in c["inputs"]:
+                s_["dtype"] = dt_
+                s_["data"] = [rng.choice([0, 1, 1] if dt_.startswith("u") else [-1, 0, 1]) for _ in s_["data"]]
+        elif cmd in arr.FUZZY_INPUT and rng.random() < 0.1:
+            # layers flagged fuzzy whose values lie outside the range (rounding noise of another tool, or plain wrong): whatever
+            # the operator makes of them, what it returns is fuzzy
+            for s_ in c["inputs"]:
+                if s_["dtype"].startswith("float"):
+                    s_["data"] = [v * rng.choice([1, 1, 1.015, 5, -40]) if isinstance(v, (int, float)) else v for v in s_["data"]]
         if rng.random() < 0.15:
             # NaN stored underneath the missing cells of float inputs (masked_invalid data, NaN fill values)
             c["inputs"] = [arr.with_payload(s_, "nan") for s_ in c["inputs"]]
